@@ -75,7 +75,7 @@ func bmNew(conf bmConf) (*bmWorld, error) {
 	// exact buffer counts per class cannot always be expressed as percentages: the classes are laid out with the library's
 	// own createFreeBufferList behind a manager header written the way createBufferManager writes it, and both views are
 	// obtained with mappingBufferManager (what a peer process does)
-	w.mem = make([]byte, total+64)
+	w.mem = make([]byte, total) // no slack: the last slot ends exactly at the end of the mapped memory
 	*(*uint16)(unsafe.Pointer(&w.mem[0])) = uint16(len(conf.Caps))
 	off := uint32(bufferManagerHeaderSize)
 	for i := range conf.Caps {
